@@ -61,6 +61,10 @@ def build_rec(O, S, leafmap, m, lab=None, ordered_flag=True, scheme="plain", col
     on, sn = names_for(O, S, m, scheme)
     onode = api_tree(O, on, colours)
     snode = api_tree(S, sn)
+    for v, node in snode.items():
+        node.dist = 0.5 + (v % 3)      # branch lengths other than 1: not part of the model, must not influence a drawing
+    for v, node in onode.items():
+        node.dist = 2.0 + (v % 2)
     los = {onode[v]: snode[s] for v, s in leafmap.items()}
     lca = LowestCommonAncestor(snode[S.root])
     mapping = {onode[v]: snode[s] for v, s in m.items()}
